@@ -419,6 +419,11 @@ def main():
         stress.append({"kind": "c20.throttle_stress", "attempts": rng.choice([3, 10, 40]), "pendingLimit": rng.choice([0, 1, 3, 8]),
                        "pause_us": rng.choice([100, 500]), "limit": rng.choice([1, 2, 5]), "interval_ns": rng.choice([2, 10, 20]) * 1_000_000,
                        "submitters": rng.choice([4, 12, 24]), "each": rng.choice([3, 8]), "hold_us": rng.choice([0, 100, 400])})
+    # two hammer runs: many submitters released at once, short holds, so that many Submit calls sit between "read pending" and
+    # "increment pending" at the same time (a check-then-act window there shows up as pending > pendingLimit + 1)
+    for pl in (2, 1):
+        stress.append({"kind": "c20.throttle_stress", "attempts": 3, "pendingLimit": pl, "pause_us": 50, "limit": 2, "interval_ns": 1_000_000,
+                       "submitters": 48, "each": 120 * n_scale, "hold_us": 30})
     for s, r in zip(stress, run_cases(drv, stress, jobs=3)):
         ck.count(s)
         probs = []
